@@ -22,6 +22,7 @@ RULE = (
 )
 QUICK = {"examples": 4000, "shards": 16, "budget_s": 300}
 THOROUGH = {"examples": 48000, "shards": 16, "budget_s": 2400}
+FUZZ = {"seconds": 90, "jobs": 8, "instrument": ["cnvlib.access", "cnvlib.antitarget", "skgenome.subtract", "skgenome.merge"]}
 ASSUMPTIONS = [
     "no blank lines inside a record and record names unique (valid faidx FASTA)",
     "sequence alphabet N, n, ACGT, acgt as in the quantifier; only the capital N is inaccessible ('characters other than N')",
